@@ -4,6 +4,7 @@ import (
 	"fmt"
 	"math/rand"
 	"sort"
+	"time"
 
 	"verif/internal/h"
 )
@@ -117,7 +118,7 @@ func randomConnected(r *rand.Rand, n int) [][2]int {
 }
 
 type c18Fault struct {
-	Kind string // remove-link, remove-router, add-link, isolate-router
+	Kind string // remove-link, remove-router, add-link, isolate-router, restart-router
 	A, B int
 	// Merge: the next fault happens before any advertisement is exchanged (two topology changes
 	// land between two fetches, so one advertisement both adds and withdraws destinations)
@@ -182,6 +183,16 @@ func c18Execute(c *h.Ctx, id string, cs c18Case, schedSeed int64, profile string
 					}
 				}
 			}
+		case "restart-router":
+			if !s.nodes[f.A].alive {
+				continue
+			}
+			time.Sleep(3 * time.Millisecond) // boot-time based sequence numbers are taken from the wall clock
+			if !s.restart(f.A) {
+				c.Inconclusive(s.bad)
+				return nil
+			}
+			c.Count("router_restarts", 1)
 		case "isolate-router":
 			if !s.nodes[f.A].alive {
 				continue
@@ -363,7 +374,9 @@ func c18Faults(r *rand.Rand, n int, edges [][2]int, k int) []c18Fault {
 	var fs []c18Fault
 	cur := append([][2]int{}, edges...)
 	for i := 0; i < k; i++ {
-		switch r.Intn(5) {
+		switch r.Intn(6) {
+		case 5: // a router crashes and comes back before its neighbours notice
+			fs = append(fs, c18Fault{Kind: "restart-router", A: r.Intn(n)})
 		case 4: // a live router loses all its links at once: one dead-neighbour sweep removes several neighbours
 			a := r.Intn(n)
 			fs = append(fs, c18Fault{Kind: "isolate-router", A: a})
